@@ -75,8 +75,69 @@ func elemOf(v ssa.Value, l *model.RangeLoop) bool {
 	if !ok || ia.X != l.Over {
 		return false
 	}
+	if countedLoops[l] {
+		return ia.Index == ssa.Value(l.Index)
+	}
 	inc, ok := ia.Index.(*ssa.BinOp)
 	return ok && inc.Op == token.ADD && inc.X == ssa.Value(l.Index)
+}
+
+// countedLoops marks loops of the form `for i := 0; i < len(xs); i++` (element index = the phi itself).
+var countedLoops = map[*model.RangeLoop]bool{}
+
+// allSliceLoops: range-over-slice loops plus counted loops over a slice from 0 with step 1.
+func allSliceLoops(fn *ssa.Function) []*model.RangeLoop {
+	out := model.SliceRangeLoops(fn)
+	for _, b := range fn.Blocks {
+		ifi, ok := b.Instrs[len(b.Instrs)-1].(*ssa.If)
+		if !ok {
+			continue
+		}
+		bo, ok := ifi.Cond.(*ssa.BinOp)
+		if !ok || bo.Op != token.LSS {
+			continue
+		}
+		phi, ok := bo.X.(*ssa.Phi)
+		if !ok || phi.Block() != b || len(phi.Edges) != 2 {
+			continue
+		}
+		ln, ok := bo.Y.(*ssa.Call)
+		if !ok {
+			continue
+		}
+		bi, ok := ln.Common().Value.(*ssa.Builtin)
+		if !ok || bi.Name() != "len" {
+			continue
+		}
+		okShape := true
+		hasBack := false
+		for i, e := range phi.Edges {
+			if b.Dominates(b.Preds[i]) {
+				hasBack = true
+				inc, ok := e.(*ssa.BinOp)
+				k, isK := (ssa.Value)(nil), false
+				if ok {
+					k, isK = inc.Y, true
+				}
+				if !ok || inc.Op != token.ADD || inc.X != ssa.Value(phi) || !isK {
+					okShape = false
+				} else if kc, ok := k.(*ssa.Const); !ok || kc.Int64() != 1 {
+					okShape = false
+				}
+			} else if kc, ok := e.(*ssa.Const); !ok || kc.Int64() != 0 {
+				okShape = false
+			}
+		}
+		if !okShape || !hasBack {
+			continue
+		}
+		l := &model.RangeLoop{Header: b, Body: b.Succs[0], Exit: b.Succs[1], Over: ln.Common().Args[0], Index: phi, Blocks: model.NaturalLoop(b)}
+		memoMu.Lock()
+		countedLoops[l] = true
+		memoMu.Unlock()
+		out = append(out, l)
+	}
+	return out
 }
 
 func c18HelperIn(c *Ctx, fn *ssa.Function) (bool, string) {
@@ -191,11 +252,18 @@ func c18HelperIn(c *Ctx, fn *ssa.Function) (bool, string) {
 }
 
 func straightLineLoop(l *model.RangeLoop) bool {
-	// header + one body block, no branching inside
-	if len(l.Blocks) != 2 {
-		return false
+	// header, then a chain of blocks without branching back to the header
+	b := l.Body
+	for n := 0; n < 4; n++ {
+		if len(b.Succs) != 1 {
+			return false
+		}
+		if b.Succs[0] == l.Header {
+			return len(l.Blocks) == n+2
+		}
+		b = b.Succs[0]
 	}
-	return len(l.Body.Succs) == 1 && l.Body.Succs[0] == l.Header
+	return false
 }
 
 func c18HelperSplitValues(c *Ctx, fn *ssa.Function) (bool, string) {
@@ -228,7 +296,54 @@ func c18HelperSplitValues(c *Ctx, fn *ssa.Function) (bool, string) {
 		}
 	}
 	if acc == nil {
-		return false, "no accumulated result slice"
+		// in-place variant: every element of the Split result is overwritten by its transformed self
+		var st *ssa.Store
+		for b := range l.Blocks {
+			for _, in := range b.Instrs {
+				if x, ok := in.(*ssa.Store); ok {
+					if st != nil {
+						return false, "more than one store in the loop"
+					}
+					st = x
+				}
+			}
+		}
+		if st == nil {
+			return false, "no accumulated result slice"
+		}
+		ia, ok := st.Addr.(*ssa.IndexAddr)
+		if !ok || ia.X != l.Over {
+			return false, "the loop stores somewhere other than into the list of comma parts"
+		}
+		if inc, ok := ia.Index.(*ssa.BinOp); !ok || inc.Op != token.ADD || inc.X != ssa.Value(l.Index) {
+			return false, "the loop does not overwrite the element it is visiting"
+		}
+		v := st.Val
+		for {
+			if u, ok := v.(*ssa.UnOp); ok {
+				if ia2, ok := u.X.(*ssa.IndexAddr); ok && ia2.X == l.Over && ia2.Index == ia.Index {
+					break
+				}
+			}
+			cl, ok := v.(*ssa.Call)
+			if !ok || cl.Common().StaticCallee() == nil {
+				return false, "the stored element is not derived from the element it replaces"
+			}
+			switch pa.CalleeName(cl.Common().StaticCallee()) {
+			case "strings.TrimSpace", "strings.ToLower":
+				v = cl.Common().Args[0]
+			default:
+				return false, "the element is transformed by " + pa.CalleeName(cl.Common().StaticCallee()) + ", which the model (TrimSpace/ToLower) does not cover"
+			}
+		}
+		for _, b := range fn.Blocks {
+			if r, ok := b.Instrs[len(b.Instrs)-1].(*ssa.Return); ok {
+				if r.Results[0] != l.Over || b != l.Exit {
+					return false, "a return yields something other than the completed list"
+				}
+			}
+		}
+		return true, "every comma part is overwritten in place by TrimSpace/ToLower of itself; the completed list is returned"
 	}
 	for i, e := range acc.Edges {
 		if l.Blocks[l.Header.Preds[i]] {
@@ -276,7 +391,7 @@ func c18HelperMultiSplit(c *Ctx, fn *ssa.Function) (bool, string) {
 	if len(fn.Params) != 2 {
 		return false, "signature changed"
 	}
-	loops := model.SliceRangeLoops(fn)
+	loops := allSliceLoops(fn)
 	if len(loops) != 2 {
 		return false, fmt.Sprintf("%d loops, want two", len(loops))
 	}
